@@ -301,26 +301,26 @@ impl MultiState {
                 .as_ref()
                 .map(|d| d.visual_line_count(.., width))
                 .unwrap_or_default();
-            // Track the total number of zombie lines on the screen.
-            self.zombie_lines_count += line_count;
-
             // Track the number of zombie lines that will be drawn by this call to draw.
             adjust += line_count;
 
             reap_indices.push(index);
         }
 
-        // If this draw is due to a `println`, then we need to erase all the zombie lines.
-        // This is because `println` is supposed to appear above all other elements in the
-        // `MultiProgress`.
-        if extra_lines.is_some() {
+        let orphan_visual_line_count = visual_line_count(&self.orphan_lines, width);
+        force_draw |= orphan_visual_line_count > VisualLines::default();
+
+        // If this draw prints text (`println`), then we need to erase all the zombie lines that
+        // were already reaped. This is because `println` is supposed to appear above all other
+        // elements in the `MultiProgress`. (Zombies reaped by this draw are still part of the
+        // frame and get erased with it.)
+        let prints_text = extra_lines.is_some() || !self.orphan_lines.is_empty();
+        if prints_text {
             self.draw_target
                 .adjust_last_line_count(LineAdjust::Clear(self.zombie_lines_count));
             self.zombie_lines_count = VisualLines::default();
         }
 
-        let orphan_visual_line_count = visual_line_count(&self.orphan_lines, width);
-        force_draw |= orphan_visual_line_count > VisualLines::default();
         let mut drawable = match self.draw_target.drawable(force_draw, now) {
             Some(drawable) => drawable,
             None => return Ok(()),
@@ -352,7 +352,9 @@ impl MultiState {
 
         // The zombie lines were drawn for the last time, so make `DrawTarget` forget about them
         // so they aren't cleared on next draw.
-        if extra_lines.is_none() {
+        if !prints_text {
+            // Track the total number of zombie lines on the screen.
+            self.zombie_lines_count += adjust;
             self.draw_target
                 .adjust_last_line_count(LineAdjust::Keep(adjust));
         }
